@@ -2,7 +2,7 @@ use std::rc::Rc;
 
 use crate::{
     cfg::Cfg,
-    parser::{HasRegisterSets, InstructionProperties, Register},
+    parser::{HasIdentity, HasRegisterSets, InstructionProperties, Register},
     passes::{DiagnosticLocation, DiagnosticManager, LintError, LintPass},
 };
 
@@ -25,10 +25,12 @@ impl LintPass for DeadValueCheck {
                 // that item is found
                 let mut ranges = Vec::new();
                 for item in &out {
-                    ranges.append(&mut Cfg::error_ranges_for_first_usage(&node, item));
+                    ranges.append(&mut Cfg::first_usages(&node, item));
                 }
-                for item in ranges {
-                    if !reported_uses.insert((item.file(), item.range())) {
+                for (user, item) in ranges {
+                    // (the instruction, not its position: a file that is included twice has
+                    // two instructions at one position)
+                    if !reported_uses.insert((user.node().id(), item.range())) {
                         continue;
                     }
                     errors.push(LintError::InvalidUseAfterCall(
